@@ -1117,6 +1117,11 @@ func (ni *negInt) Value() (driver.Value, error) {
 }
 
 func dbtype(abitype string, d []byte) any {
+	// elements of an array (bool[], string[3], ...) are
+	// mapped by their element type
+	if i := strings.IndexByte(abitype, '['); i >= 0 {
+		abitype = abitype[:i]
+	}
 	switch {
 	case strings.HasPrefix(abitype, "int"):
 		x := &uint256.Int{}
